@@ -2521,7 +2521,7 @@ vmovdqu  %%T_key, [%%GDATA_KEY+16*j]
 
 %%_after_aad:
         mov     r10, %%A_LEN
-        vpxor   xmm2, xmm3
+        vpxor   xmm2, xmm2
 
         vmovdqu [%%GDATA_CTX + AadHash], %%AAD_HASH         ; ctx_data.aad hash = aad_hash
         mov     [%%GDATA_CTX + AadLen], r10                 ; ctx_data.aad_length = aad_length
